@@ -76,8 +76,9 @@ SCENARIOS: Dict[str, List[Tuple[str, List[List[Any]]]]] = {
             ("B", [["tick"], ["tick"], ["connect", "b", "B", "A", 0, P], ["recv", "b"]])],
     "S9b": [("A", [["tick"], ["tick"], ["connect", "a", "A", "B", 0, P], ["send", "a", "m1"], ["close", "a"]]),
             ("B", [["connect", "b", "B", "A", 0, P], ["recv", "b"]])],
-    # message values that are easy to mistake for "nothing": the empty string, "0", a blank
-    "S10": [("A", [["connect", "a", "A", "B", 0, P], ["send", "a", ""], ["send", "a", "0"], ["send", "a", " "]]),
+    # message values that are easy to mistake for "nothing" or for framing: the empty string, "0", a leading blank, the
+    # "EOF" marker the bundled example applications append (the communication log trims it, the channel must not)
+    "S10": [("A", [["connect", "a", "A", "B", 0, P], ["send", "a", ""], ["send", "a", "0"], ["send", "a", " EOF1,1EOF"]]),
             ("B", [["connect", "b", "B", "A", 0, P], ["nb", "b"], ["recv", "b"], ["drain_to", "b", 3], ["nb", "b"]])],
     # the less used entry points share the hub with send/recv: structured and silent, blocking and not
     # (one socket per kind: a structured message is a JSON string on the wire, the two kinds do not mix on one channel)
